@@ -1266,6 +1266,9 @@ func (e *Engine) convertInstr(p *Path, fr *Frame, in *ssa.Convert) Value {
 				e.Abstract["string(rune) conversion (uninterpreted)"] = true
 				return e.opaqueString(st, "rune")
 			case fb.Kind() == types.UnsafePointer || tb.Kind() == types.UnsafePointer:
+				if e.inInit {
+					return xv
+				}
 				execFail("unsafe.Pointer conversion in %s (outside the verified subset)", fr.fn)
 			}
 		}
@@ -1282,6 +1285,11 @@ func (e *Engine) convertInstr(p *Path, fr *Frame, in *ssa.Convert) Value {
 			return e.opaqueResult(to, "[]rune(string)")
 		}
 		if _, ok := tu.(*types.Pointer); ok && fb.Kind() == types.UnsafePointer {
+			if e.inInit {
+				// package initialisers only: the pointer is carried through; a later slice of the
+				// reinterpreted cell yields its little-endian bytes (A-ARCH, A-UNSAFE)
+				return xv
+			}
 			execFail("unsafe.Pointer conversion in %s (outside the verified subset)", fr.fn)
 		}
 	}
@@ -1298,6 +1306,9 @@ func (e *Engine) convertInstr(p *Path, fr *Frame, in *ssa.Convert) Value {
 	}
 	if _, ok := fu.(*types.Pointer); ok {
 		if tb, ok := tu.(*types.Basic); ok && tb.Kind() == types.UnsafePointer {
+			if e.inInit {
+				return xv
+			}
 			execFail("unsafe.Pointer conversion in %s (outside the verified subset)", fr.fn)
 		}
 	}
@@ -1482,6 +1493,22 @@ func (e *Engine) sliceInstr(p *Path, fr *Frame, in *ssa.Slice) []*Path {
 		fr.env[in] = SliceV{b, lo, BVBin("bvsub", hi, lo), BVBin("bvsub", capv, lo)}
 		return forks
 	case *PtrV:
+		if b.Kind == PCell && e.inInit {
+			// (*[N]byte)(unsafe.Pointer(&v))[:k] in a package initialiser: the little-endian bytes of v
+			if cv, ok := p.st.Cells[b.Cell].(*Term); ok && cv.Sort.Kind == SBV && cv.Sort.Width%8 == 0 {
+				r := e.newRef(p.st, "reinterpret")
+				nb := cv.Sort.Width / 8
+				for i := 0; i < nb; i++ {
+					p.st.StoreElem(types.Typ[types.Uint8], r, BVU(uint64(i), 64), Extract(8*i+7, 8*i, cv))
+				}
+				if hi == nil {
+					hi = BVU(uint64(nb), 64)
+				}
+				e.note("package initialiser of %s reinterprets a %d-bit value as bytes through unsafe.Pointer: read little-endian (A-ARCH, A-UNSAFE)", fr.fn.Pkg.Pkg.Path(), cv.Sort.Width)
+				fr.env[in] = SliceV{r, lo, BVBin("bvsub", hi, lo), BVBin("bvsub", BVU(uint64(nb), 64), lo)}
+				return nil
+			}
+		}
 		if b.Kind == PGlobal {
 			at := globalElemType(b.Glob).Underlying().(*types.Array)
 			n := BVU(uint64(at.Len()), 64)
